@@ -207,6 +207,7 @@ spec fn tight(n: RTreeNode) -> bool {
 
 // ================= code under contract =================
 //@extract fn bigtools/src/bbi/bbiwrite.rs get_rtreeindex
+//@rule R16
 //@presub /\A.*?\n[ \t]*\.map\(\|c\| (match &c \{.*?\n[ \t]*\})\)\s*\.collect\(\),?\s*\)\s*\}\)\s*\.collect\(\)\s*\};.*\Z/ => fn node_of_child(c: RTreeChildren) -> RTreeNode {\n    \1\n} min=1 count=1
 //@sub /(\w+)\.iter\(\)\s*\.map\(\|s\| \(s\.chrom, s\.end\)\)\s*\.max\(\)/ => max_end_of_sections(\1) min=0
 //@sub /(\w+)\s*\.iter\(\)\s*\.map\(\|n\| \(n\.end_chrom_idx, n\.end_base\)\)\s*\.max\(\)/ => max_end_of_children(\1) min=0
